@@ -168,26 +168,35 @@ Proof.
   - rewrite iE, sub64_u64, (length_slots_delete _ _ _ E). f_equal. lia.
 Qed.
 
-Lemma Inv_step st l st' : Inv st → step st l = Some st' → Inv st'.
+Lemma Inv_with_lk st k : Inv st → Inv (with_lk st k).
+Proof. intros H. by eapply Inv_ext; [..|exact H]. Qed.
+
+Lemma Inv_arm st l st' : Inv st → arm false st l = Some st' → Inv st'.
 Proof.
   intros H. destruct l as [es peek|e peek|s|s io|]; cbn; intros Hs.
-  - injection Hs as <-. unfold arrive_metrics. apply Inv_fold_park_metric.
+  - injection Hs as <-. unfold arrive_metrics, close_group, open_group.
+    apply Inv_with_lk, Inv_fold_park_metric, Inv_with_lk.
     by eapply Inv_ext; [..|exact H].
   - injection Hs as <-. unfold arrive_event. destruct (resolve peek (ev_src e)).
     + by eapply Inv_ext; [..|exact H].
     + by apply Inv_park_event.
-  - destruct (bool_decide (s ∈ toLookup st)); [|done]. injection Hs as <-.
-    by eapply Inv_ext; [..|exact H].
-  - injection Hs as <-.
-    eapply Inv_ext; [..|exact (Inv_release_events _ s io (Inv_release_metrics _ s io H))]; done.
+  - destruct (lk_send s (lk st)); [|done]. injection Hs as <-. by apply Inv_with_lk.
+  - injection Hs as <-. unfold answer. apply Inv_with_lk.
+    by apply Inv_release_events, Inv_release_metrics.
   - injection Hs as <-. by eapply Inv_ext; [..|exact H].
+Qed.
+
+Lemma Inv_step st l st' : Inv st → step st l = Some st' → Inv st'.
+Proof.
+  intros H. unfold step, step_gen. destruct (arm false st l) as [s1|] eqn:E; [|done]. intros [= <-].
+  unfold refill. apply Inv_with_lk. by eapply Inv_arm.
 Qed.
 
 Lemma Inv_run ls st : run step init ls = Some st → Inv st.
 Proof. apply (invariant_run step Inv Inv_step), Inv_init. Qed.
 
 (* C11_gauges *)
-Lemma gauges ls st :
+Lemma gauges_true ls st :
   run step init ls = Some st →
   hostsM st = u64 (Z.of_nat (size (awaitM st)))
   ∧ hostsE st = u64 (Z.of_nat (size (awaitE st)))
@@ -202,7 +211,7 @@ Lemma gauges_exact ls st :
   ∧ hostsE st = Z.of_nat (size (awaitE st))
   ∧ itemsE st = Z.of_nat (length (parked_events st)).
 Proof.
-  intros H ? ? ?. destruct (gauges _ _ H) as (-> & -> & ->).
+  intros H ? ? ?. destruct (gauges_true _ _ H) as (-> & -> & ->).
   rewrite !u64_small by lia. done.
 Qed.
 
@@ -211,7 +220,7 @@ Lemma gauges_emit ls st st' :
   emitted st' = emitted st ++ [(u64 (Z.of_nat (size (awaitM st))), u64 (Z.of_nat (size (awaitE st))),
                                u64 (Z.of_nat (length (parked_events st))))].
 Proof.
-  intros H [= <-]. destruct (gauges _ _ H) as (<- & <- & <-). done.
+  intros H [= <-]. destruct (gauges_true _ _ H) as (<- & <- & <-). done.
 Qed.
 
 (* every park slot holds only items of its source *)
